@@ -45,6 +45,51 @@ def _single_arr(fw, val):
     return None, str(why)[:120]
 
 
+def _sum_loop_verdict(facts, nb, accv, acc_ops, init, inv):
+    """('ok'|'bad', why) or None for the accumulate-in-a-loop form of the sum kernel"""
+    from .facts import walk_ctx
+    if init is None or lit_value_(init) != 0:
+        return ("bad", "the running total of the sum kernel starts from `%s`, not from zero" % show(init)[:20]) if init is not None and lit_value_(init) is not None else None
+    loops = [(n_, F.for_loop_parts(n_)) for n_ in walk(facts.root(nb)) if F.for_loop_parts(n_)]
+    loops = list({id(fl_[3]): (n_, fl_) for n_, fl_ in loops}.values())
+    if len(loops) != 1 or len(acc_ops) != 1:
+        return None
+    ln_, (it, pat, body, loop) = loops[0]
+    op_ = acc_ops[0]
+    if not any(x is op_ for x in walk(body)):
+        return None
+    src_ok = any(y.get("k") in ("VarRef", "UpvarRef") and y["v"] == inv for y in walk(it))
+    adaptors = {(callee(y) or "").rsplit("::", 1)[-1] for y in walk(it) if y.get("k") == "Call" and (callee(y) or "").startswith("core::iter::")}
+    if not src_ok or not adaptors <= {"copied", "cloned", "into_iter", "by_ref", "rev"} or pat.get("k") != "Binding":
+        return None
+    # a value-dependent way out of the loop (or around the addition) leaves elements of the slice out of the total
+    for x, ctx in walk_ctx(body):
+        leaves = x.get("k") in ("Break", "Continue", "Return")
+        if not (leaves or x is op_):
+            continue
+        for fr in ctx:
+            cnd = fr[1].get("cond") if fr[0] in ("if", "after") else (fr[1].get("scrutinee") if fr[0] in ("arm", "guard", "after-arm") else None)
+            if cnd is None:
+                continue
+            floaty = [y for y in walk(cnd) if y.get("k") == "Binary" and y.get("op") in ("Eq", "Ne", "Lt", "Le", "Gt", "Ge")
+                      and any((strip(z).get("ty") or "").lstrip("&") in ("f64", "f32") for z in (y["l"], y["r"]))]
+            if floaty:
+                return ("bad", "the summing loop of the sum kernel %s under the value test `%s`: the elements it passes over are missing from the total"
+                        % ("is left (`%s`)" % x["k"].lower() if leaves else "skips the addition", show(floaty[0])[:50]))
+            return None
+    if op_.get("k") == "Call":
+        if callee(op_) != "core::ops::arith::AddAssign::add_assign":
+            return ("bad", "the summing loop of the sum kernel updates its total with `%s`, not `+=`" % callee(op_).rsplit("::", 1)[-1])
+        r_ = peel(op_["args"][1])
+    elif op_.get("k") != "AssignOp" or op_.get("op") != "Add":
+        return ("bad", "the summing loop of the sum kernel updates its total with `%s`, not `+=`" % (op_.get("op") or "=")) if op_.get("k") == "AssignOp" else None
+    else:
+        r_ = peel(op_["r"])
+    if F.var_of(r_) != pat.get("v") or r_.get("k") not in ("VarRef", "UpvarRef"):
+        return None
+    return ("ok", "the kernel adds every element of its slice to a total that starts at zero")
+
+
 def _parents(facts, nb):
     out = []
     cur = nb
@@ -280,11 +325,21 @@ def r35_pointwise_definitions(facts):
             rhs = strip(stores[0]["r"])
             lets_ = {st["pat"]["v"]: st["init"] for x_ in walk(facts.root(nb)) if x_.get("k") == "Block" for st in x_["stmts"]
                      if st["s"] == "let" and st["pat"].get("k") == "Binding" and st.get("init") is not None}
+            verdict = None
+            # loop form: `let mut total = 0.0; for v in arrays[0] { total += v; } out[0] = total;`
+            accv = rhs["v"] if isinstance(rhs, dict) and rhs.get("k") == "VarRef" else None
+            acc_ops = [x for x in walk(facts.root(nb)) if (x.get("k") in ("AssignOp", "Assign") and F.var_of(strip(x["l"])) == accv and strip(x["l"]).get("k") == "VarRef")
+                       or (x.get("k") == "Call" and (callee(x) or "").startswith("core::ops::arith::") and (callee(x) or "").endswith("_assign") and x.get("args")
+                           and F.var_of(peel(x["args"][0])) == accv)] if accv else []
+            if accv and acc_ops:
+                verdict = _sum_loop_verdict(facts, nb, accv, acc_ops, lets_.get(accv), inv)
+                if verdict is None:
+                    c.unk(kinst, kwhere, "the reduction kernel of sum accumulates `%s` in a loop of a form this rule does not read" % accv.split("#")[0])
+                    continue
             hops_ = 0
-            while isinstance(rhs, dict) and rhs.get("k") == "VarRef" and rhs["v"] in lets_ and hops_ < 3:
+            while verdict is None and isinstance(rhs, dict) and rhs.get("k") == "VarRef" and rhs["v"] in lets_ and hops_ < 3:
                 rhs = strip(lets_[rhs["v"]])
                 hops_ += 1
-            verdict = None
             if isinstance(rhs, dict) and rhs.get("k") == "Call":
                 cal_ = callee(rhs) or ""
                 src_ok = any(y.get("k") in ("VarRef", "UpvarRef") and y["v"] == inv for y in walk(rhs["args"][0])) if rhs.get("args") else False
